@@ -251,37 +251,62 @@ pub fn parse(bytes: &[u8]) -> Arena {
 }
 
 impl Arena {
+    /// Local name of an element in the HTML namespace (None for text, foreign elements, ...).
+    /// html2text only gives meaning to HTML-namespace elements; `<svg><style>` is just a container.
     pub fn name(&self, n: usize) -> Option<&str> {
+        if let Kind::Elem { ref name, .. } = self.nodes[n].kind {
+            if &*name.ns == "http://www.w3.org/1999/xhtml" {
+                return Some(&name.local);
+            }
+        }
+        None
+    }
+    pub fn is_elem(&self, n: usize) -> bool {
+        matches!(self.nodes[n].kind, Kind::Elem { .. })
+    }
+    /// Local name regardless of namespace.
+    pub fn local_any(&self, n: usize) -> Option<&str> {
         if let Kind::Elem { ref name, .. } = self.nodes[n].kind {
             Some(&name.local)
         } else {
             None
         }
     }
-    pub fn attr(&self, n: usize, k: &str) -> Option<&str> {
-        if let Kind::Elem { ref attrs, .. } = self.nodes[n].kind {
-            attrs.iter().find(|(a, _)| a == k).map(|(_, v)| v.as_str())
-        } else {
-            None
-        }
+    pub fn parent(&self, n: usize) -> Option<usize> {
+        self.nodes[n].parent
     }
-    /// Visible text stream in document order (not whitespace-stripped).
-    pub fn visible_text(&self) -> String {
-        let mut out = String::new();
+    pub fn children(&self, n: usize) -> &[usize] {
+        &self.nodes[n].children
+    }
+    /// Elements html2text drops together with their subtree.
+    pub fn is_ignored_elem(&self, n: usize) -> bool {
+        matches!(self.name(n), Some("head" | "script" | "style" | "link" | "meta" | "hr"))
+    }
+    /// `img` that html2text renders: non-empty alt and non-empty src.
+    pub fn img_alt(&self, n: usize) -> Option<&str> {
+        if self.name(n) == Some("img") {
+            let alt = self.attr(n, "alt").unwrap_or("");
+            let src = self.attr(n, "src").unwrap_or("");
+            if !alt.is_empty() && !src.is_empty() {
+                return Some(alt);
+            }
+        }
+        None
+    }
+    /// Text items (text nodes and rendered img alts) in document order: (node, text).
+    pub fn text_items(&self) -> Vec<(usize, String)> {
+        let mut out = vec![];
         let mut stack = vec![0usize];
         while let Some(n) = stack.pop() {
             match &self.nodes[n].kind {
-                Kind::Text(t) => out.push_str(t),
-                Kind::Elem { name, .. } => {
-                    let l: &str = &name.local;
-                    if matches!(l, "head" | "script" | "style" | "link" | "meta" | "hr") {
+                Kind::Text(t) => out.push((n, t.clone())),
+                Kind::Elem { .. } => {
+                    if self.is_ignored_elem(n) {
                         continue;
                     }
-                    if l == "img" {
-                        let alt = self.attr(n, "alt").unwrap_or("");
-                        let src = self.attr(n, "src").unwrap_or("");
-                        if !alt.is_empty() && !src.is_empty() {
-                            out.push_str(alt);
+                    if self.name(n) == Some("img") {
+                        if let Some(a) = self.img_alt(n) {
+                            out.push((n, a.to_string()));
                         }
                         continue;
                     }
@@ -298,5 +323,70 @@ impl Arena {
             }
         }
         out
+    }
+    /// Does the subtree contain visible (non-whitespace, non-control) text?
+    pub fn has_visible_text(&self, n: usize) -> bool {
+        let mut stack = vec![n];
+        while let Some(k) = stack.pop() {
+            match &self.nodes[k].kind {
+                Kind::Text(t) => {
+                    if t.chars().any(crate::util::is_visible) {
+                        return true;
+                    }
+                }
+                Kind::Elem { .. } => {
+                    if self.is_ignored_elem(k) {
+                        continue;
+                    }
+                    if self.name(k) == Some("img") {
+                        if self.img_alt(k).map(|a| a.chars().any(crate::util::is_visible)).unwrap_or(false) {
+                            return true;
+                        }
+                        continue;
+                    }
+                    stack.extend(self.nodes[k].children.iter().copied());
+                }
+                Kind::Document => stack.extend(self.nodes[k].children.iter().copied()),
+                _ => {}
+            }
+        }
+        false
+    }
+    /// Ancestors of a node, nearest first.
+    pub fn ancestors(&self, n: usize) -> Vec<usize> {
+        let mut v = vec![];
+        let mut p = self.nodes[n].parent;
+        while let Some(q) = p {
+            v.push(q);
+            p = self.nodes[q].parent;
+        }
+        v
+    }
+    pub fn elements(&self) -> impl Iterator<Item = usize> + '_ {
+        (0..self.nodes.len()).filter(|&n| self.is_elem(n) && self.attached(n))
+    }
+    /// Is the node reachable from the document root?
+    pub fn attached(&self, n: usize) -> bool {
+        let mut k = n;
+        loop {
+            if k == 0 {
+                return true;
+            }
+            match self.nodes[k].parent {
+                Some(p) => k = p,
+                None => return false,
+            }
+        }
+    }
+    pub fn attr(&self, n: usize, k: &str) -> Option<&str> {
+        if let Kind::Elem { ref attrs, .. } = self.nodes[n].kind {
+            attrs.iter().find(|(a, _)| a == k).map(|(_, v)| v.as_str())
+        } else {
+            None
+        }
+    }
+    /// Visible text stream in document order (not whitespace-stripped).
+    pub fn visible_text(&self) -> String {
+        self.text_items().into_iter().map(|(_, t)| t).collect()
     }
 }
